@@ -7,11 +7,14 @@
 (*   Create(conv, cfg)      get_converter() / get_converter(user converter) *)
 (*   Probe(conv, input)     structure + unstructure of battery item input   *)
 (*                                                                          *)
-(* The specification of "independent of creation order, count and          *)
-(* configuration" is: there is ONE function memo from inputs to results    *)
-(* that every probe of every converter, at every time, agrees with.        *)
-(* memo is not logged; the trace spec infers it from the first probe of    *)
-(* each input and holds every later probe against it.                      *)
+(* The specification of "independent of creation order, count, threads":   *)
+(* what a converter returns depends only on its own configuration class    *)
+(* (cc: default, detailed validation off, user hook installed) and the     *)
+(* input - there is ONE function memo[cc][input] that every probe of every *)
+(* converter, in every run and at every time, agrees with.  memo is not    *)
+(* logged; the trace spec infers it from the first probe of each (cc,      *)
+(* input) - the single-converter runs come first - and holds every later   *)
+(* probe against it.  Successful results must agree across all classes.    *)
 (*                                                                          *)
 (* Generation mode: the reachable states are the creation histories up to  *)
 (* length MaxLen; every maximal one is printed and executed by the harness *)
@@ -24,7 +27,7 @@ CONSTANTS MaxLen,     \* generation: history length bound
           NRuns,      \* trace: number of runs in the trace file
           NEvents     \* trace: total number of events
 
-Cfgs == {"fresh", "user", "user_nodetail", "same_again"}
+Cfgs == {"fresh", "user", "user_nodetail", "same_again", "user_hook"}
 
 VARIABLES svHistory,
           svR,      \* trace: run being replayed
@@ -45,19 +48,25 @@ EmitHistory == IF Len(svHistory) = MaxLen THEN PrintT("@H " \o ToJson(svHistory)
 (***************************************************************************)
 Runs == JsonDeserialize(IOEnv.CONV_TRACE)
 
-TInit == svR = 1 /\ svL = 1 /\ svMemo = <<>> /\ svN = 0 /\ svHistory = <<>>
+CCs == {"d", "n", "h"}
+TInit == svR = 1 /\ svL = 1 /\ svMemo = [c \in CCs |-> <<>>] /\ svN = 0 /\ svHistory = <<>>
 
+Unknown == [res |-> "?", acc |-> FALSE]
+Known(cc, i) == i \in DOMAIN svMemo[cc] /\ svMemo[cc][i].res # "?"
 Fails(ev) == CASE ev.e = "Create" -> IF ev.ok THEN {} ELSE {"H_create"}
-               [] ev.e = "Probe" -> IF ev.input + 1 \in DOMAIN svMemo /\ svMemo[ev.input + 1] # "?"
-                                        /\ svMemo[ev.input + 1] # ev.res
-                                    THEN {"H_agree"} ELSE {}
+               [] ev.e = "Probe" -> LET i == ev.input + 1 IN
+                                    (IF Known(ev.cc, i) /\ svMemo[ev.cc][i].res # ev.res THEN {"H_agree"} ELSE {})
+                                    \* whether an input is accepted never depends on the configuration
+                                    \cup (IF \E c2 \in CCs \ {ev.cc, "h"} :
+                                               ev.cc # "h" /\ Known(c2, i) /\ svMemo[c2][i].acc # ev.acc
+                                          THEN {"H_accept"} ELSE {})
                [] OTHER -> {}
 
 \* memo as a sequence indexed by input + 1, "?" = not seen yet in this run
+Learn1(m, i, r) == LET m2 == IF i <= Len(m) THEN m ELSE m \o [k \in 1..(i - Len(m)) |-> Unknown]
+                   IN IF m2[i].res = "?" THEN [m2 EXCEPT ![i] = r] ELSE m2
 Learn(m, ev) == IF ev.e # "Probe" THEN m
-                ELSE LET i == ev.input + 1
-                         m2 == IF i <= Len(m) THEN m ELSE m \o [k \in 1..(i - Len(m)) |-> "?"]
-                     IN IF m2[i] = "?" THEN [m2 EXCEPT ![i] = ev.res] ELSE m2
+                ELSE [m EXCEPT ![ev.cc] = Learn1(m[ev.cc], ev.input + 1, [res |-> ev.res, acc |-> ev.acc])]
 
 TStep == /\ svR <= NRuns
          /\ LET run == Runs[svR]
@@ -65,10 +74,11 @@ TStep == /\ svR <= NRuns
                 f == Fails(ev)
             IN /\ IF f = {} THEN TRUE
                   ELSE PrintT("@F " \o ToJson([run |-> svR, l |-> svL, c |-> f,
-                                               expected |-> IF ev.e = "Probe" THEN svMemo[ev.input + 1] ELSE "ok"]))
+                                               expected |-> IF ev.e = "Probe" /\ Known(ev.cc, ev.input + 1)
+                                                            THEN svMemo[ev.cc][ev.input + 1].res ELSE "ok"]))
                /\ IF svL < Len(run.events)
                   THEN svL' = svL + 1 /\ svR' = svR /\ svMemo' = Learn(svMemo, ev)
-                  ELSE svL' = 1 /\ svR' = svR + 1 /\ svMemo' = <<>>
+                  ELSE svL' = 1 /\ svR' = svR + 1 /\ svMemo' = Learn(svMemo, ev)
          /\ svN' = svN + 1
          /\ TLCSet(1, svN + 1)
          /\ UNCHANGED svHistory
